@@ -78,8 +78,11 @@ impl<T: Copy> Block for VectorSink<T> {
         if n > 0 {
             storage.0.extend(&i.slice()[..n]);
             storage.1.extend(tags);
-            i.consume(ilen);
         }
+        // A full sink discards the rest, as it already did for the part of a
+        // window that did not fit: leaving it unconsumed would stall upstream
+        // while asking for input that is already there.
+        i.consume(ilen);
         Ok(BlockRet::WaitForStream(&self.src, 1))
     }
 }
